@@ -82,12 +82,91 @@ def judge(res: Result, case: Dict[str, Any], vals: List[Any], typ, k: int, get_t
             res.oblige("saw:optional-key", True)
 
 
+NOREWRITE_HISTORIES = [
+    ("0", "'a'", "1.5", "b'x'", "None", "Base()", "Other()"),
+    ("Derived()", "Derived2()"), ("Derived()", "Derived2()", "Multi()", "Base()"),
+    ("DA()", "DB()", "DC()", "DD()", "DE()", "DF()"), ("DA()", "DB()", "DC()", "DD()", "DE()", "DF()", "None"),
+    ("[]", "[0]"), ("set()", "{0}", "{'a'}"), ("{}", "{1: 0}"), ("{1: 0}", "{1: 'a'}"), ("{'a': 0}", "{'a': 'a', 'b': 0}"),
+    ("(0,)", "(0, 0)", "(0, 0, 0)", "('a',)", "('a', 'a')", "('a', 'a', 'a')"), ("[0]", "['a']", "[1.5]", "[None]", "[Base()]", "[[0]]", "[]"),
+    ("0",), ("[Derived(), Derived2()]",), ("{'a': [], 'b': [0]}", "{'a': [0]}"),
+]
+
+
+def no_rewriter_stage(ctx: Ctx) -> Result:
+    """Every way of asking for stubs WITHOUT a rewriter - build_module_stubs_from_traces with no rewriter argument,
+    StubIndexBuilder, and `stub --disable-type-rewriting` through the CLI - denotes exactly the inferred (merged) type: a
+    return annotation that is wider than shrink_types' result admits something that was never seen."""
+    import io
+    import os
+
+    import mcfg
+    import vfx.shapes as S
+    from monkeytype import cli
+    from monkeytype.stubs import StubIndexBuilder, build_module_stubs_from_traces
+    from monkeytype.tracing import CallTrace
+    from monkeytype.typing import get_type, shrink_types
+
+    from mcheck.gen import values as V
+    from mcheck.oracles import stubeval as SE
+
+    res = Result()
+    own = {n: v for n, v in vars(S).items() if isinstance(v, type) and v.__module__ == S.__name__}
+    db = str(ctx.tmp / "c05_norewrite.sqlite3")
+    for hi, h in enumerate(NOREWRITE_HISTORIES):
+        vals = [V.ev(e) for e in h]
+        for k in (0, 3):
+            types = [get_type(v, k) for v in vals]
+            direct = shrink_types(types, k)
+            traces = [CallTrace(S.mfunc, {"x": t}, t, None) for t in types]
+            texts = {}
+            case = {"values": list(h), "k": k, "family": "no-rewriter", "hi": hi}
+            try:
+                texts["build_module_stubs_from_traces"] = build_module_stubs_from_traces(traces, k)["vfx.shapes"].render()
+                sib = StubIndexBuilder("vfx.shapes", k)
+                for t in traces:
+                    sib.log(t)
+                texts["StubIndexBuilder"] = sib.get_stubs()["vfx.shapes"].render()
+                if os.path.exists(db):
+                    os.unlink(db)
+                mcfg.reset(db=db, k=k)
+                mcfg.CONFIG.trace_store().add(traces)
+                out, err = io.StringIO(), io.StringIO()
+                cli.main(["-c", "mcfg:fresh()", "--disable-type-rewriting", "stub", "vfx.shapes"], out, err)
+                texts["cli --disable-type-rewriting"] = out.getvalue()
+            except Exception as e:  # noqa: BLE001
+                res.violate(Violation(ID, "exception", "no-rewriter-stage", case, f"raised {e!r}"))
+                continue
+            for how, text in texts.items():
+                res.states += 1
+                res.transitions += 1
+                res.evaluations += 1
+                res.validated += 1
+                info = SE.parse(text, own, lenient_modules=["vfx", "vfx.shapes", "typing", "collections"])
+                fis = info.funcs.get(((), "mfunc"))
+                if info.syntax_error or not fis or not fis[0].has_return:
+                    res.violate(Violation(ID, "loose", "no-rewriter:unreadable", case, f"{how}: stub unreadable: {info.syntax_error or text[:200]!r}"))
+                    continue
+                R = SE.normalize(fis[0].returns, info)
+                if isinstance(R, SE.Err):
+                    continue   # C11's business (names the stub does not provide)
+                if O.struct(R) != O.struct(direct):
+                    res.violate(Violation(ID, "loose", "no-rewriter:" + how.split(" ")[0], case, f"{how}: the return annotation {fis[0].returns_src!r} denotes {O.show(R)}, the inferred type (no rewriter asked for) is {O.show(direct)}"))
+                else:
+                    res.nontrivial_n += 1
+    res.oblige("no-rewriter-entry-points", True)
+    return res
+
+
 def run(ctx: Ctx) -> Result:
     res = IC.run_inference(ctx, ID, judge)
+    res.merge(no_rewriter_stage(ctx))
+    res.obligations.setdefault("no-rewriter-entry-points", False)
     for a in ("arm:all_td", "arm:all_td_oversize", "arm:all_lists", "arm:mixed", "saw:Any-justified-by-empty-container", "saw:union", "saw:optional-key"):
         res.obligations.setdefault(a, False)
     return res
 
 
 def replay(case: Dict[str, Any], ctx: Ctx) -> List[Violation]:
+    if case.get("family") == "no-rewriter":
+        return [v for v in no_rewriter_stage(ctx).violations if v.case.get("hi") == case.get("hi") and v.case.get("k") == case.get("k")]
     return IC.replay_case(case, judge)
